@@ -635,8 +635,13 @@ class _YieldFromCheck(SyntaxRule):
         return leaf.parent.parent  # This is the actual yield statement.
 
     def is_issue(self, leaf):
-        return leaf.parent.type == 'yield_arg' \
-            and self._normalizer.context.is_async_funcdef()
+        if leaf.parent.type != 'yield_arg' \
+                or not self._normalizer.context.is_async_funcdef():
+            return False
+        # A lambda inside an async function is a (synchronous) function of its
+        # own, `yield from` is fine there.
+        scope = leaf.search_ancestor('funcdef', 'lambdef', 'lambdef_nocond')
+        return scope is None or scope.type == 'funcdef'
 
 
 @ErrorFinder.register_rule(type='name')
